@@ -133,7 +133,22 @@ def periodic_cases(rng, n):
                 ops.append("r" if r < 5 else ("f %d" % rng.choice([0, 0, 0, 1, 5000, 3000000]) if r < 9 else "h"))
             secs.append("t " + " ".join(ops))
         nthreads = nt + 2 + 6          # worker, apps, closer, some collect threads
-        k = rng.below(4)
+        k = rng.below(5)
+        if k == 4:
+            # structured: an application thread gets going, the worker starts a cycle, the cycle's collect thread (ids follow the
+            # application threads and the closer) is stopped c steps in - before, inside or after its Export -, the worker's wait
+            # times out (flag 1) or not, then the worker, an application thread (Shutdown / ForceFlush / record racing the cycle)
+            # and the NEXT cycle's collect thread run: windows between "collection in flight" and the next cycle / the caller
+            elat = rng.choice([1, 2, 4])
+            c0 = nt + 2
+            a = 1 + rng.below(nt)
+            segs = [(a, 4 + rng.below(10), 0), (0, 2 + rng.below(8), 0), (c0, 1 + rng.below(9), 0),
+                    (0, 1 + rng.below(4), 1 if rng.chance(1, 2) else 0), (1 + rng.below(nt), rng.below(8), 0),
+                    (0, 2 + rng.below(14), 0), (c0 + 1, 1 + rng.below(9), 0), (a, rng.below(8), 0),
+                    (c0, rng.below(8), 0), (0, rng.below(14), 0)]
+            sched = seg_schedule(segs)
+            out.append("PERIODIC %d %d %d %d %d | %s | s %s" % (interval, timeout, clat, elat, mask, " | ".join(secs), sched))
+            continue
         if k == 0:
             sched = ""
         elif k == 1:
